@@ -173,7 +173,6 @@ def oracle(c, r):
     iv = _intervals(times)
     site = KIND_NAMES[knd]
     prev = {}     # consumer -> capture of the previous interval
-    aborted = False   # an earlier tick ended with an exception raised by a stream registered before the stateful one
     for (entries, err), n in zip(ticks, iv):
         if n is None:
             continue
@@ -208,20 +207,9 @@ def oracle(c, r):
                                 f'interval {n} (w={w}, s={s}, consumer {j}): captured {got!r}, last emission was {prev[j]!r}')
         if knd in (STATE, BOTH, COUNT_STATE):
             want = _state_expected(batches, uc, n)
-            if knd == COUNT_STATE and err is not None:
-                # the callback ended before the stateful stream was stepped: nothing is captured in this interval,
-                # and (see below) the batch of this interval never reaches the state
-                aborted = True
-                continue
             for j in (range(k) if knd == STATE else range(k, 2 * k)):
                 got = _of(entries, j)
                 if got != [want]:
-                    if aborted and s > 1:
-                        return ('updateStateByKey:state:batch-lost-when-earlier-stream-raised:countByWindow-slide>1',
-                                f'interval {n}: captured {got!r}, expected one capture {want!r}; countByWindow(w={w}, s={s}) is '
-                                'registered before updateStateByKey on the same source and raised AttributeError in the '
-                                'tick callback before its first emission, so the stateful stream was not stepped in those '
-                                'intervals while the source had already popped their batches')
                     return (f'updateStateByKey:state:{U_NAMES[uc]}',
                             f'interval {n} (consumer {j}, {k} consumers): captured {got!r}, expected one capture {want!r}'
                             + (f'; callback raised {err}' if err else ''))
@@ -315,7 +303,7 @@ def generate(rng, tier):
             cases.append((knd, w, s, 0, 2, [[1, 2], [], [3]], [1, 2, 3, 4, 5, 6, 7, 8]))
             cases.append((knd, w, s, 0, 1, [[], [], []], [1, 2, 3, 4, 5, 6]))
             cases.append((knd, w, s, 0, 1, [], [1, 2, 3, 4]))
-    # the recorded finding (and its harmless variant with slide 1)
+    # the history of the repaired defect 7e069b7 (regression; also in corpus/C11) and its variant with slide 1
     cases.append((COUNT_STATE, 2, 2, 0, 1, [[(0, 1)], [(0, 2)], [(0, 3)], [(0, 4)]], [1, 2, 3, 4]))
     cases.append((COUNT_STATE, 2, 1, 0, 1, [[(0, 1)], [(0, 2)], [(0, 3)], [(0, 4)]], [1, 2, 3, 4]))
     if tier == 'thorough':
